@@ -65,24 +65,44 @@ theorem removeBlobs_other (used : List DRef) (ks : List DRef) (b : Digest → Op
 
 /-! ## one iteration of the download loop -/
 
-/-- `Step s s1 d`: `s1` is the state after the loop body handled a layer with digest `d` successfully -/
-def Step (s s1 : DlState) (d : Digest) : Prop :=
-  (∃ c0, s.st.blobs d = some c0 ∧ s1 = { s with skip := setSkip d true s.skip }) ∨
-  (s.st.blobs d = none ∧ ∃ c pa net', s1 =
+theorem markSkip_pinned {cfg : Cfg} (hdup : cfg.fixedDup = false) (d : Digest) (v : Bool)
+    (sk : List (Digest × Bool)) : markSkip cfg d v sk = setSkip d v sk := by
+  simp [markSkip, hdup]
+
+theorem getSkip_markSkip_other (cfg : Cfg) (x d : Digest) (v : Bool) (sk : List (Digest × Bool))
+    (hx : x ≠ d) : getSkip x (markSkip cfg d v sk) = getSkip x sk := by
+  unfold markSkip
+  split
+  · rfl
+  · simp [getSkip_setSkip, hx]
+
+/-- `Step cfg hash s s1 d`: `s1` is the state after the loop body handled a layer with digest `d`
+    successfully (a cache hit, or a completed download that — in the repaired variant — passed its
+    inline verification) -/
+def Step (cfg : Cfg) (hash : Bytes → Digest) (s s1 : DlState) (d : Digest) : Prop :=
+  (∃ c0, s.st.blobs d = some c0 ∧ s1 = { s with skip := markSkip cfg d true s.skip }) ∨
+  (s.st.blobs d = none ∧ ∃ c pa net', (cfg.verifyEarly = true → hash c = d) ∧ s1 =
     { st := { s.st with blobs := upd s.st.blobs d (some c), partials := upd s.st.partials d pa },
-      net := net', skip := setSkip d false s.skip, renamed := s.renamed ++ [d] })
+      net := net', skip := markSkip cfg d false s.skip, renamed := s.renamed ++ [d] })
 
 /-- what the loop does with its first layer: it either stops there (not `ok`; only the partial
     state and the counters change) or takes a `Step` and continues -/
-theorem dlLoop_cons {cfg : Cfg} {reg : Registry} {sc : Scripts} {l : Layer} {ls : List Layer}
-    {s s' : DlState} {o : Outcome} (h : dlLoop cfg reg sc (l :: ls) s = (o, s')) :
+theorem dlLoop_cons {cfg : Cfg} {hash : Bytes → Digest} {reg : Registry} {sc : Scripts} {l : Layer}
+    {ls : List Layer} {s s' : DlState} {o : Outcome} (h : dlLoop cfg hash reg sc (l :: ls) s = (o, s')) :
     (o ≠ .ok () ∧ s'.st.blobs = s.st.blobs ∧ s'.st.manifests = s.st.manifests ∧
-      s'.skip = s.skip ∧ s'.renamed = s.renamed) ∨
-    (∃ d s1, l.digest = .ok d ∧ Step s s1 d ∧ dlLoop cfg reg sc ls s1 = (o, s')) := by
+      s'.skip = s.skip ∧ s'.renamed = s.renamed ∧
+      (∀ p, o = .panic p → (p = .emptyDigest ∧ cfg.fixedEmpty = false) ∨
+        ∃ d pa net, (downloadLayer cfg reg d (lookupS d sc.layers) pa net).1 = .panic p)) ∨
+    (∃ d s1, l.digest = .ok d ∧ Step cfg hash s s1 d ∧ dlLoop cfg hash reg sc ls s1 = (o, s')) := by
   unfold dlLoop at h
   split at h
   · left; cases h; simp
-  · left; cases h; simp
+  · split at h
+    · left; cases h; simp
+    · rename_i hfe
+      left; cases h
+      simp at hfe
+      simp [hfe]
   · rename_i d hd
     split at h
     · rename_i c0 hc0
@@ -90,22 +110,34 @@ theorem dlLoop_cons {cfg : Cfg} {reg : Registry} {sc : Scripts} {l : Layer} {ls 
     · rename_i hnone
       split at h
       · rename_i c pa net' _
-        right; exact ⟨d, _, hd, Or.inr ⟨hnone, c, pa, net', rfl⟩, h⟩
+        split at h
+        · left; cases h; simp
+        · rename_i hcond
+          right
+          refine ⟨d, _, hd, Or.inr ⟨hnone, c, pa, net', ?_, rfl⟩, h⟩
+          intro hv
+          simpa [hv] using hcond
       · left; cases h; simp
-      · left; cases h; simp
+      · rename_i p pa net' hdl
+        left; cases h
+        refine ⟨by simp, rfl, rfl, rfl, rfl, ?_⟩
+        intro p' hp'
+        cases hp'
+        right; exact ⟨d, _, _, by rw [hdl]⟩
 
-theorem Step.manifests {s s1 : DlState} {d : Digest} (h : Step s s1 d) :
-    s1.st.manifests = s.st.manifests := by
-  rcases h with ⟨_, _, rfl⟩ | ⟨_, _, _, _, rfl⟩ <;> rfl
+theorem Step.manifests {cfg : Cfg} {hash : Bytes → Digest} {s s1 : DlState} {d : Digest}
+    (h : Step cfg hash s s1 d) : s1.st.manifests = s.st.manifests := by
+  rcases h with ⟨_, _, rfl⟩ | ⟨_, _, _, _, _, rfl⟩ <;> rfl
 
-theorem Step.other {s s1 : DlState} {d x : Digest} (h : Step s s1 d) (hx : x ≠ d) :
+theorem Step.other {cfg : Cfg} {hash : Bytes → Digest} {s s1 : DlState} {d x : Digest}
+    (h : Step cfg hash s s1 d) (hx : x ≠ d) :
     s1.st.blobs x = s.st.blobs x ∧ getSkip x s1.skip = getSkip x s.skip := by
-  rcases h with ⟨_, _, rfl⟩ | ⟨_, _, _, _, rfl⟩
-  · simp [getSkip_setSkip, hx]
-  · simp [getSkip_setSkip, hx, upd_other]
+  rcases h with ⟨_, _, rfl⟩ | ⟨_, _, _, _, _, rfl⟩
+  · simp [getSkip_markSkip_other, hx]
+  · simp [getSkip_markSkip_other, hx, upd_other]
 
-theorem Step.keeps {s s1 : DlState} {d x : Digest} {c : Bytes} (h : Step s s1 d)
-    (hc : s.st.blobs x = some c) : s1.st.blobs x = some c := by
+theorem Step.keeps {cfg : Cfg} {hash : Bytes → Digest} {s s1 : DlState} {d x : Digest} {c : Bytes}
+    (h : Step cfg hash s s1 d) (hc : s.st.blobs x = some c) : s1.st.blobs x = some c := by
   by_cases hx : x = d
   · subst hx
     rcases h with ⟨_, _, rfl⟩ | ⟨hn, _⟩
@@ -113,50 +145,68 @@ theorem Step.keeps {s s1 : DlState} {d x : Digest} {c : Bytes} (h : Step s s1 d)
     · rw [hn] at hc; cases hc
   · rw [(h.other hx).1]; exact hc
 
-theorem Step.present {s s1 : DlState} {d : Digest} (h : Step s s1 d) : ∃ c, s1.st.blobs d = some c := by
-  rcases h with ⟨c0, hc, rfl⟩ | ⟨_, c, _, _, rfl⟩
+theorem Step.present {cfg : Cfg} {hash : Bytes → Digest} {s s1 : DlState} {d : Digest}
+    (h : Step cfg hash s s1 d) : ∃ c, s1.st.blobs d = some c := by
+  rcases h with ⟨c0, hc, rfl⟩ | ⟨_, c, _, _, _, rfl⟩
   · exact ⟨c0, hc⟩
   · exact ⟨c, by simp [upd_same]⟩
 
-theorem Step.skip_true_same {s s1 : DlState} {d : Digest} (h : Step s s1 d)
+theorem Step.skip_true_same {cfg : Cfg} {hash : Bytes → Digest} {s s1 : DlState} {d : Digest}
+    (hdup : cfg.fixedDup = false) (h : Step cfg hash s s1 d)
     (ht : getSkip d s1.skip = true) : s1.st.blobs d = s.st.blobs d := by
-  rcases h with ⟨_, _, rfl⟩ | ⟨_, _, _, _, rfl⟩
+  rcases h with ⟨_, _, rfl⟩ | ⟨_, _, _, _, _, rfl⟩
   · rfl
-  · simp [getSkip_setSkip] at ht
+  · simp [markSkip_pinned hdup, getSkip_setSkip] at ht
 
-theorem Step.skip_or_renamed {s s1 : DlState} {d : Digest} (h : Step s s1 d) :
+theorem Step.skip_or_renamed {cfg : Cfg} {hash : Bytes → Digest} {s s1 : DlState} {d : Digest}
+    (hdup : cfg.fixedDup = false) (h : Step cfg hash s s1 d) :
     getSkip d s1.skip = true ∨ d ∈ s1.renamed := by
-  rcases h with ⟨_, _, rfl⟩ | ⟨_, _, _, _, rfl⟩
-  · left; simp [getSkip_setSkip]
+  rcases h with ⟨_, _, rfl⟩ | ⟨_, _, _, _, _, rfl⟩
+  · left; simp [markSkip_pinned hdup, getSkip_setSkip]
   · right; simp
 
-theorem Step.renamed_mono {s s1 : DlState} {d x : Digest} (h : Step s s1 d) (hx : x ∈ s.renamed) :
-    x ∈ s1.renamed := by
-  rcases h with ⟨_, _, rfl⟩ | ⟨_, _, _, _, rfl⟩
+theorem Step.renamed_mono {cfg : Cfg} {hash : Bytes → Digest} {s s1 : DlState} {d x : Digest}
+    (h : Step cfg hash s s1 d) (hx : x ∈ s.renamed) : x ∈ s1.renamed := by
+  rcases h with ⟨_, _, rfl⟩ | ⟨_, _, _, _, _, rfl⟩
   · exact hx
   · simp [hx]
 
-theorem Step.changed_renamed {s s1 : DlState} {d : Digest} (h : Step s s1 d) (x : Digest) :
-    s1.st.blobs x = s.st.blobs x ∨ x ∈ s1.renamed := by
+theorem Step.changed_renamed {cfg : Cfg} {hash : Bytes → Digest} {s s1 : DlState} {d : Digest}
+    (h : Step cfg hash s s1 d) (x : Digest) : s1.st.blobs x = s.st.blobs x ∨ x ∈ s1.renamed := by
   by_cases hx : x = d
   · subst hx
-    rcases h with ⟨_, _, rfl⟩ | ⟨_, _, _, _, rfl⟩
+    rcases h with ⟨_, _, rfl⟩ | ⟨_, _, _, _, _, rfl⟩
     · left; rfl
     · right; simp
   · left; exact (h.other hx).1
 
-theorem Step.hit_skip {s s1 : DlState} {d : Digest} (h : Step s s1 d) {c : Bytes}
+theorem Step.hit_skip {cfg : Cfg} {hash : Bytes → Digest} {s s1 : DlState} {d : Digest}
+    (hdup : cfg.fixedDup = false) (h : Step cfg hash s s1 d) {c : Bytes}
     (hc : s.st.blobs d = some c) : getSkip d s1.skip = true := by
   rcases h with ⟨_, _, rfl⟩ | ⟨hn, _⟩
-  · simp [getSkip_setSkip]
+  · simp [markSkip_pinned hdup, getSkip_setSkip]
   · rw [hn] at hc; cases hc
+
+/-- repaired variant: a step only ever adds a blob that hashes to its name -/
+theorem Step.blobInv_early {cfg : Cfg} {hash : Bytes → Digest} {s s1 : DlState} {d : Digest}
+    (hearly : cfg.verifyEarly = true) (h : Step cfg hash s s1 d)
+    (hinv : ∀ x c, s.st.blobs x = some c → hash c = x) : ∀ x c, s1.st.blobs x = some c → hash c = x := by
+  intro x c hx
+  rcases h with ⟨_, _, rfl⟩ | ⟨_, c', _, _, hh, rfl⟩
+  · exact hinv x c hx
+  · by_cases e : x = d
+    · subst e
+      simp only [upd_same] at hx
+      cases hx; exact hh hearly
+    · simp only [upd_other _ _ _ _ e] at hx
+      exact hinv x c hx
 
 /-! ## the download loop -/
 
 /-- whatever the outcome: manifests untouched, existing blobs kept, `renamed` grows, and a blob
     differs from before only if this attempt renamed it into place -/
-theorem dlLoop_preserve {cfg : Cfg} {reg : Registry} {sc : Scripts} (ls : List Layer) :
-    ∀ {s s' : DlState} {o : Outcome}, dlLoop cfg reg sc ls s = (o, s') →
+theorem dlLoop_preserve {cfg : Cfg} {hash : Bytes → Digest} {reg : Registry} {sc : Scripts} (ls : List Layer) :
+    ∀ {s s' : DlState} {o : Outcome}, dlLoop cfg hash reg sc ls s = (o, s') →
       s'.st.manifests = s.st.manifests ∧
       (∀ x c, s.st.blobs x = some c → s'.st.blobs x = some c) ∧
       (∀ x, x ∈ s.renamed → x ∈ s'.renamed) ∧
@@ -169,7 +219,7 @@ theorem dlLoop_preserve {cfg : Cfg} {reg : Registry} {sc : Scripts} (ls : List L
     exact ⟨rfl, fun _ _ h => h, fun _ h => h, fun _ => Or.inl rfl⟩
   | cons l ls ih =>
     intro s s' o h
-    rcases dlLoop_cons h with ⟨_, hb, hm, _, hr⟩ | ⟨d, s1, _, hstep, hrest⟩
+    rcases dlLoop_cons h with ⟨_, hb, hm, _, hr, _⟩ | ⟨d, s1, _, hstep, hrest⟩
     · refine ⟨hm, ?_, ?_, ?_⟩
       · intro x c hx; rw [hb]; exact hx
       · intro x hx; rw [hr]; exact hx
@@ -185,9 +235,42 @@ theorem dlLoop_preserve {cfg : Cfg} {reg : Registry} {sc : Scripts} (ls : List L
           · right; exact ir x r1
         · right; exact r
 
+/-- repaired variant: whatever the outcome, the download loop keeps "every blob hashes to its name" -/
+theorem dlLoop_blobInv_early {cfg : Cfg} {hash : Bytes → Digest} {reg : Registry} {sc : Scripts}
+    (hearly : cfg.verifyEarly = true) (ls : List Layer) :
+    ∀ {s s' : DlState} {o : Outcome}, dlLoop cfg hash reg sc ls s = (o, s') →
+      (∀ x c, s.st.blobs x = some c → hash c = x) → ∀ x c, s'.st.blobs x = some c → hash c = x := by
+  induction ls with
+  | nil =>
+    intro s s' o h hinv
+    simp only [dlLoop] at h
+    cases h; exact hinv
+  | cons l ls ih =>
+    intro s s' o h hinv
+    rcases dlLoop_cons h with ⟨_, hb, _⟩ | ⟨d, s1, _, hstep, hrest⟩
+    · intro x c hx; rw [hb] at hx; exact hinv x c hx
+    · exact ih hrest (hstep.blobInv_early hearly hinv)
+
+/-- on success every layer is addressable and stored (all variants) -/
+theorem dlLoop_ok_present {cfg : Cfg} {hash : Bytes → Digest} {reg : Registry} {sc : Scripts} (ls : List Layer) :
+    ∀ {s s' : DlState}, dlLoop cfg hash reg sc ls s = (.ok (), s') →
+      ∀ l ∈ ls, ∃ d c, l.digest = .ok d ∧ s'.st.blobs d = some c := by
+  induction ls with
+  | nil => intro s s' _ l hl; cases hl
+  | cons l0 ls ih =>
+    intro s s' h l hl
+    rcases dlLoop_cons h with ⟨hne, _⟩ | ⟨d, s1, hd, hstep, hrest⟩
+    · exact absurd rfl hne
+    · rcases List.mem_cons.1 hl with rfl | hin
+      · obtain ⟨c, hc⟩ := hstep.present
+        obtain ⟨_, ik, _, _⟩ := dlLoop_preserve ls hrest
+        exact ⟨d, c, hd, ik d c hc⟩
+      · exact ih hrest l hin
+
 /-- a digest that is already stored and already marked (or still to come) ends up marked `skip` -/
-theorem dlLoop_skip_true {cfg : Cfg} {reg : Registry} {sc : Scripts} (ls : List Layer) :
-    ∀ {s s' : DlState} {x : Digest} {c : Bytes}, dlLoop cfg reg sc ls s = (.ok (), s') →
+theorem dlLoop_skip_true {cfg : Cfg} {hash : Bytes → Digest} {reg : Registry} {sc : Scripts}
+    (hdup : cfg.fixedDup = false) (ls : List Layer) :
+    ∀ {s s' : DlState} {x : Digest} {c : Bytes}, dlLoop cfg hash reg sc ls s = (.ok (), s') →
       s.st.blobs x = some c → ((∃ l ∈ ls, l.digest = .ok x) ∨ getSkip x s.skip = true) →
       getSkip x s'.skip = true := by
   induction ls with
@@ -205,7 +288,7 @@ theorem dlLoop_skip_true {cfg : Cfg} {reg : Registry} {sc : Scripts} (ls : List 
     · have hc1 := hstep.keeps hc
       by_cases hx : x = d
       · subst hx
-        exact ih hrest hc1 (Or.inr (hstep.hit_skip hc))
+        exact ih hrest hc1 (Or.inr (hstep.hit_skip hdup hc))
       · rcases hor with ⟨l', hl', hd'⟩ | ht
         · rcases List.mem_cons.1 hl' with rfl | hin
           · rw [hd] at hd'; cases hd'; exact absurd rfl hx
@@ -214,8 +297,9 @@ theorem dlLoop_skip_true {cfg : Cfg} {reg : Registry} {sc : Scripts} (ls : List 
 
 /-- on success every layer is addressable and stored, and was either a cache hit or renamed by
     this attempt -/
-theorem dlLoop_ok_all {cfg : Cfg} {reg : Registry} {sc : Scripts} (ls : List Layer) :
-    ∀ {s s' : DlState}, dlLoop cfg reg sc ls s = (.ok (), s') →
+theorem dlLoop_ok_all {cfg : Cfg} {hash : Bytes → Digest} {reg : Registry} {sc : Scripts}
+    (hdup : cfg.fixedDup = false) (ls : List Layer) :
+    ∀ {s s' : DlState}, dlLoop cfg hash reg sc ls s = (.ok (), s') →
       ∀ l ∈ ls, ∃ d c, l.digest = .ok d ∧ s'.st.blobs d = some c ∧
         (getSkip d s'.skip = true ∨ d ∈ s'.renamed) := by
   induction ls with
@@ -228,14 +312,14 @@ theorem dlLoop_ok_all {cfg : Cfg} {reg : Registry} {sc : Scripts} (ls : List Lay
       · obtain ⟨c, hc⟩ := hstep.present
         obtain ⟨_, ik, ir, _⟩ := dlLoop_preserve ls hrest
         refine ⟨d, c, hd, ik d c hc, ?_⟩
-        rcases hstep.skip_or_renamed with ht | hr
-        · left; exact dlLoop_skip_true ls hrest hc (Or.inr ht)
+        rcases hstep.skip_or_renamed hdup with ht | hr
+        · left; exact dlLoop_skip_true hdup ls hrest hc (Or.inr ht)
         · right; exact ir d hr
       · exact ih hrest l hin
 
 /-- a digest the loop does not meet keeps its blob and its mark -/
-theorem dlLoop_frame {cfg : Cfg} {reg : Registry} {sc : Scripts} (ls : List Layer) :
-    ∀ {s s' : DlState} {x : Digest}, dlLoop cfg reg sc ls s = (.ok (), s') →
+theorem dlLoop_frame {cfg : Cfg} {hash : Bytes → Digest} {reg : Registry} {sc : Scripts} (ls : List Layer) :
+    ∀ {s s' : DlState} {x : Digest}, dlLoop cfg hash reg sc ls s = (.ok (), s') →
       (∀ l ∈ ls, l.digest ≠ .ok x) →
       s'.st.blobs x = s.st.blobs x ∧ getSkip x s'.skip = getSkip x s.skip := by
   induction ls with
@@ -254,8 +338,9 @@ theorem dlLoop_frame {cfg : Cfg} {reg : Registry} {sc : Scripts} (ls : List Laye
       exact ⟨e1.trans f1, e2.trans f2⟩
 
 /-- without repeated digests, a layer marked `skip` holds the blob that was there before the loop -/
-theorem dlLoop_ok_nodup {cfg : Cfg} {reg : Registry} {sc : Scripts} (ls : List Layer) :
-    ∀ {s s' : DlState}, dlLoop cfg reg sc ls s = (.ok (), s') → (ls.map (·.digest)).Nodup →
+theorem dlLoop_ok_nodup {cfg : Cfg} {hash : Bytes → Digest} {reg : Registry} {sc : Scripts}
+    (hdup : cfg.fixedDup = false) (ls : List Layer) :
+    ∀ {s s' : DlState}, dlLoop cfg hash reg sc ls s = (.ok (), s') → (ls.map (·.digest)).Nodup →
       ∀ l ∈ ls, ∀ d, l.digest = .ok d → getSkip d s'.skip = true → s'.st.blobs d = s.st.blobs d := by
   induction ls with
   | nil => intro s s' _ _ l hl; cases hl
@@ -272,7 +357,7 @@ theorem dlLoop_ok_nodup {cfg : Cfg} {reg : Registry} {sc : Scripts} (ls : List L
           exact hnotin (by rw [hd0, ← e]; exact List.mem_map_of_mem hl')
         obtain ⟨e1, e2⟩ := dlLoop_frame ls hrest hno
         rw [e1]
-        exact hstep.skip_true_same (by rw [← e2]; exact ht)
+        exact hstep.skip_true_same hdup (by rw [← e2]; exact ht)
       · have hne : d ≠ d0 := by
           intro e; subst e
           exact hnotin (by rw [hd0, ← hd]; exact List.mem_map_of_mem hin)
@@ -393,16 +478,23 @@ theorem prunedBlobs_keep (cfg : Cfg) (name : Name) (m : Manifest) (st st2 : Stor
     obtain ⟨l, hl, hd⟩ := List.mem_map.1 hin
     exact h2.1 l hl hd
 
+/-- the verification phase after the download loop: the verify loop (pinned) / nothing (repaired:
+    every fresh layer was verified inline) -/
+def verifyPhase (cfg : Cfg) (hash : Bytes → Digest) (skip : List (Digest × Bool)) (ls : List Layer)
+    (st : Store) : Outcome × Store :=
+  if cfg.verifyEarly then (.ok (), st) else verifyLoop hash skip ls st
+
 /-- `pull` either fails before touching anything, or stops in the download loop, or runs the
-    verify loop and then (only on success) writes the manifest and prunes -/
+    verify phase and then (only on success) writes the manifest and prunes -/
 theorem pull_cases {cfg : Cfg} {hash : Bytes → Digest} {name : Name} {reg : Registry} {sc : Scripts}
     {st st' : Store} {o : Outcome} {log : Log}
     (h : pull cfg hash name reg sc st = (o, st', log)) :
-    (o ≠ .ok () ∧ st' = st ∧ log.renamed = []) ∨
-    (∃ net0 s, dlLoop cfg reg sc reg.manifest.all ⟨st, net0, [], []⟩ = (o, s) ∧ o ≠ .ok () ∧
+    (o ≠ .ok () ∧ st' = st ∧ log.renamed = [] ∧
+      (∀ p, o = .panic p → ∃ k s net, (mrr cfg reg.realm (Reply.pass MBody.served) k s net).1 = .panic p)) ∨
+    (∃ net0 s, dlLoop cfg hash reg sc reg.manifest.all ⟨st, net0, [], []⟩ = (o, s) ∧ o ≠ .ok () ∧
       st' = s.st ∧ log.renamed = s.renamed) ∨
-    (∃ net0 s ov st2, dlLoop cfg reg sc reg.manifest.all ⟨st, net0, [], []⟩ = (.ok (), s) ∧
-      verifyLoop hash s.skip reg.manifest.all s.st = (ov, st2) ∧ log.renamed = s.renamed ∧
+    (∃ net0 s ov st2, dlLoop cfg hash reg sc reg.manifest.all ⟨st, net0, [], []⟩ = (.ok (), s) ∧
+      verifyPhase cfg hash s.skip reg.manifest.all s.st = (ov, st2) ∧ log.renamed = s.renamed ∧
       ((ov ≠ .ok () ∧ o = ov ∧ st' = st2) ∨
        (ov = .ok () ∧ o = .ok () ∧
         st'.manifests = insertM name (.readable reg.manifest) st2.manifests ∧
@@ -411,7 +503,11 @@ theorem pull_cases {cfg : Cfg} {hash : Bytes → Digest} {name : Name} {reg : Re
   simp only at h
   split at h
   · left; cases h; simp
-  · left; cases h; simp
+  · rename_i p _ net1 n hm
+    left; cases h
+    refine ⟨by simp, rfl, rfl, ?_⟩
+    intro p' hp'; cases hp'
+    exact ⟨2, sc.manifest, { tok := sc.token }, by rw [hm]⟩
   · left; cases h; simp
   · rename_i net1 n _
     split at h
@@ -435,6 +531,33 @@ theorem pull_cases {cfg : Cfg} {hash : Bytes → Digest} {name : Name} {reg : Re
       · rename_i st2 hv
         cases h
         exact ⟨_, s, _, st2, hdl, hv, rfl, Or.inr ⟨rfl, rfl, rfl, rfl⟩⟩
+
+theorem verifyPhase_ok {cfg : Cfg} {hash : Bytes → Digest} {skip : List (Digest × Bool)} {ls : List Layer}
+    {st st2 : Store} (h : verifyPhase cfg hash skip ls st = (.ok (), st2)) :
+    st2 = st ∧ (cfg.verifyEarly = false → ∀ l ∈ ls, ∀ d, l.digest = .ok d → getSkip d skip = false →
+      ∃ c, st.blobs d = some c ∧ hash c = d) := by
+  unfold verifyPhase at h
+  split at h
+  · rename_i he
+    cases h
+    exact ⟨rfl, fun hf => by rw [he] at hf; cases hf⟩
+  · obtain ⟨e, hall⟩ := verifyLoop_ok ls h
+    exact ⟨e, fun _ => hall⟩
+
+theorem verifyPhase_any {cfg : Cfg} {hash : Bytes → Digest} {skip : List (Digest × Bool)} {ls : List Layer}
+    {st st2 : Store} {o : Outcome} (h : verifyPhase cfg hash skip ls st = (o, st2)) :
+    st2.manifests = st.manifests ∧
+    ∀ x, st2.blobs x = st.blobs x ∨
+      (cfg.verifyEarly = false ∧ getSkip x skip = false ∧ ∃ l ∈ ls, l.digest = .ok x) := by
+  unfold verifyPhase at h
+  split at h
+  · cases h; exact ⟨rfl, fun _ => Or.inl rfl⟩
+  · rename_i he
+    obtain ⟨hm, hx⟩ := verifyLoop_any ls h
+    refine ⟨hm, fun x => ?_⟩
+    rcases hx x with e | ⟨hf, hl⟩
+    · exact Or.inl e
+    · exact Or.inr ⟨by simpa using he, hf, hl⟩
 
 /-! ## the honest path (for `retry_can_succeed`) -/
 
@@ -537,12 +660,12 @@ theorem downloadLayer_honest (cfg : Cfg) (reg : Registry) (d : Digest) (c : Byte
   have h1 : (downloadLayer cfg reg d LScript.empty Partial.none net).1 = .ok c := by
     simp only [downloadLayer, hc, Partial.none, LScript.empty, List.isEmpty_nil, if_true, mrr_pass,
       Option.getD_some, Option.getD_none, resize, List.take_nil, List.nil_append, List.length_nil,
-      Nat.sub_zero, directLoop, Bool.and_false, Bool.false_eq_true,
+      Nat.sub_zero, directLoop, replyFails, Bool.and_false, Bool.false_eq_true,
       if_false, plan, hrun]
   have h2 : (downloadLayer cfg reg d LScript.empty Partial.none net).2.1 = Partial.none := by
     simp only [downloadLayer, hc, Partial.none, LScript.empty, List.isEmpty_nil, if_true, mrr_pass,
       Option.getD_some, Option.getD_none, resize, List.take_nil, List.nil_append, List.length_nil,
-      Nat.sub_zero, directLoop, Bool.and_false, Bool.false_eq_true,
+      Nat.sub_zero, directLoop, replyFails, Bool.and_false, Bool.false_eq_true,
       if_false, plan, hrun]
   exact ⟨(downloadLayer cfg reg d LScript.empty Partial.none net).2.2, Prod.ext h1 (Prod.ext h2 rfl)⟩
 
@@ -554,7 +677,7 @@ theorem dlLoop_honest (cfg : Cfg) (hash : Bytes → Digest) (reg : Registry)
       (∀ l ∈ ls, ∃ d c, l.digest = .ok d ∧ lookupC d reg.content = some c ∧ hash c = d) →
       (∀ d c, s.st.blobs d = some c → hash c = d) →
       (∀ l ∈ ls, ∀ d, l.digest = .ok d → s.st.blobs d = none → s.st.partials d = Partial.none) →
-      ∃ s', dlLoop cfg reg Scripts.honest ls s = (.ok (), s') ∧
+      ∃ s', dlLoop cfg hash reg Scripts.honest ls s = (.ok (), s') ∧
         (∀ d c, s'.st.blobs d = some c → hash c = d) := by
   induction ls with
   | nil => intro s _ hb _; exact ⟨s, rfl, hb⟩
@@ -565,7 +688,7 @@ theorem dlLoop_honest (cfg : Cfg) (hash : Bytes → Digest) (reg : Registry)
       fun l' hl' => hreg l' (by simp [hl'])
     cases hbl : s.st.blobs d with
     | some c0 =>
-      obtain ⟨s', hs', hb'⟩ := ih { s with skip := setSkip d true s.skip } hreg' hb
+      obtain ⟨s', hs', hb'⟩ := ih { s with skip := markSkip cfg d true s.skip } hreg' hb
         (fun l' hl' d' hd' hn => hclean l' (by simp [hl']) d' hd' hn)
       refine ⟨s', ?_, hb'⟩
       simp only [dlLoop, hd, hbl]
@@ -575,7 +698,7 @@ theorem dlLoop_honest (cfg : Cfg) (hash : Bytes → Digest) (reg : Registry)
       obtain ⟨net', hdl⟩ := downloadLayer_honest cfg reg d c s.net hret hmin hmax hc
       let s1 : DlState :=
         { st := { s.st with blobs := upd s.st.blobs d (some c), partials := upd s.st.partials d Partial.none }
-          net := net', skip := setSkip d false s.skip, renamed := s.renamed ++ [d] }
+          net := net', skip := markSkip cfg d false s.skip, renamed := s.renamed ++ [d] }
       have hb1 : ∀ x cx, s1.st.blobs x = some cx → hash cx = x := by
         intro x cx hx
         by_cases e : x = d
@@ -593,7 +716,8 @@ theorem dlLoop_honest (cfg : Cfg) (hash : Bytes → Digest) (reg : Registry)
       obtain ⟨s', hs', hb'⟩ := ih s1 hreg' hb1 hcl1
       refine ⟨s', ?_, hb'⟩
       have hls : lookupS d Scripts.honest.layers = LScript.empty := rfl
-      simp only [dlLoop, hd, hbl, hls, hpa, hdl]
+      have hcond : (cfg.verifyEarly && hash c != d) = false := by simp [hh]
+      simp only [dlLoop, hd, hbl, hls, hpa, hdl, hcond, Bool.false_eq_true, if_false]
       exact hs'
 
 /-- if every stored layer hashes to its name the verify loop passes -/
@@ -614,5 +738,175 @@ theorem verifyLoop_honest (hash : Bytes → Digest) (skip : List (Digest × Bool
         simp only [hc, hb d c hc, if_true]
         exact ih'
     · exact ih'
+
+/-! ## no panic once `getValue` checks its bounds and `""` is rejected -/
+
+theorem getValue_fixed_some (s key : Bytes) : ∃ v, getValue true s key = some v := by
+  unfold getValue
+  cases indexOf (key ++ [61]) s with
+  | none => exact ⟨_, rfl⟩
+  | some idx =>
+    simp only
+    split
+    · exact ⟨_, rfl⟩
+    · exact ⟨_, rfl⟩
+
+theorem parseChallenge_fixed_some (hdr : Bytes) : ∃ ch, parseChallenge true hdr = some ch := by
+  unfold parseChallenge
+  simp only
+  obtain ⟨r, hr⟩ := getValue_fixed_some (trimPrefix bearer hdr) kRealm
+  obtain ⟨sv, hs⟩ := getValue_fixed_some (trimPrefix bearer hdr) kService
+  obtain ⟨sc, hc⟩ := getValue_fixed_some (trimPrefix bearer hdr) kScope
+  rw [hr, hs, hc]
+  exact ⟨_, rfl⟩
+
+theorem authStep_no_panic {cfg : Cfg} (hfix : cfg.fixedChallenge = true) (realm hdr : Bytes) (net : Net)
+    (p : PanicSite) : (authStep cfg realm hdr net).1 ≠ .panic p := by
+  obtain ⟨ch, hch⟩ := parseChallenge_fixed_some hdr
+  unfold authStep
+  rw [hfix, hch]
+  simp only
+  split
+  · cases net.tok with
+    | nil => simp [pop]
+    | cons t ts => cases t <;> simp [pop]
+  · simp
+
+theorem mrr_no_panic {α : Type} {cfg : Cfg} (hfix : cfg.fixedChallenge = true) (realm : Bytes)
+    (dflt : Reply α) (p : PanicSite) :
+    ∀ (k : Nat) (s : List (Reply α)) (net : Net), (mrr cfg realm dflt k s net).1 ≠ .panic p := by
+  intro k
+  induction k with
+  | zero => intro s net; simp [mrr]
+  | succ k ih =>
+    intro s net
+    unfold mrr
+    simp only
+    split
+    · simp
+    · simp
+    · simp
+    · simp
+    · rename_i hdr _
+      split
+      · rename_i net' _
+        generalize hm : mrr cfg realm dflt k (pop dflt s).2 net' = r
+        obtain ⟨x, s'', net'', n⟩ := r
+        have := ih (pop dflt s).2 net'
+        rw [hm] at this
+        exact this
+      · simp
+      · rename_i p' net' ha
+        have := authStep_no_panic hfix realm hdr net p'
+        rw [ha] at this
+        exact absurd rfl this
+
+theorem directLoop_no_panic {cfg : Cfg} (hfix : cfg.fixedChallenge = true) (realm : Bytes)
+    (dflt : Reply DirRep) (p : PanicSite) :
+    ∀ (f : Nat) (s : List (Reply DirRep)) (net : Net), (directLoop cfg realm dflt f s net).1 ≠ .panic p := by
+  intro f
+  induction f with
+  | zero => intro s net; simp [directLoop]
+  | succ f ih =>
+    intro s net
+    unfold directLoop
+    generalize hm : mrr cfg realm dflt 2 s net = r
+    obtain ⟨x, s', net', n⟩ := r
+    split
+    · simp
+    · cases x with
+      | ok a => cases a <;> simp
+      | err e => exact ih _ _
+      | panic p' => exact absurd (congrArg Prod.fst hm) (mrr_no_panic hfix _ _ p' _ _ _)
+
+theorem downloadLayer_no_panic {cfg : Cfg} (hfix : cfg.fixedChallenge = true) (reg : Registry) (d : Digest)
+    (ls : LScript) (pa : Partial) (net : Net) (p : PanicSite) :
+    (downloadLayer cfg reg d ls pa net).1 ≠ .panic p := by
+  unfold downloadLayer
+  simp only
+  split
+  · simp
+  · rename_i p' net1 hprep
+    -- the only source of a panic in Prepare is the HEAD request
+    exfalso
+    split at hprep
+    · split at hprep
+      · cases hprep
+      · cases hprep
+      · rename_i p'' _ net' n hm
+        exact absurd (congrArg Prod.fst hm) (mrr_no_panic hfix _ _ p'' _ _ _)
+    · cases hprep
+  · split
+    · simp
+    · rename_i p' net2 hdir
+      exact absurd (congrArg Prod.fst hdir) (directLoop_no_panic hfix _ _ p' _ _ _)
+    · split <;> simp
+
+theorem dlLoop_no_panic {cfg : Cfg} {hash : Bytes → Digest} {reg : Registry} {sc : Scripts}
+    (hfix : cfg.fixedChallenge = true) (hempty : cfg.fixedEmpty = true) (p : PanicSite) (ls : List Layer) :
+    ∀ {s s' : DlState} {o : Outcome}, dlLoop cfg hash reg sc ls s = (o, s') → o ≠ .panic p := by
+  induction ls with
+  | nil =>
+    intro s s' o h
+    simp only [dlLoop] at h
+    cases h; simp
+  | cons l ls ih =>
+    intro s s' o h
+    rcases dlLoop_cons h with ⟨_, _, _, _, _, hp⟩ | ⟨d, s1, _, _, hrest⟩
+    · intro e
+      rcases hp p e with ⟨_, hfe⟩ | ⟨d, pa, net, hd⟩
+      · rw [hempty] at hfe; cases hfe
+      · exact downloadLayer_no_panic hfix reg d _ pa net p hd
+    · exact ih hrest
+
+theorem verifyLoop_no_panic {hash : Bytes → Digest} {skip : List (Digest × Bool)} (p : PanicSite) (ls : List Layer) :
+    ∀ {st st2 : Store} {o : Outcome}, verifyLoop hash skip ls st = (o, st2) → o ≠ .panic p := by
+  induction ls with
+  | nil => intro st st2 o h; simp only [verifyLoop] at h; cases h; simp
+  | cons l ls ih =>
+    intro st st2 o h
+    unfold verifyLoop at h
+    split at h
+    · split at h
+      · exact ih h
+      · split at h
+        · cases h; simp
+        · split at h
+          · exact ih h
+          · cases h; simp
+    · exact ih h
+
+theorem verifyPhase_no_panic {cfg : Cfg} {hash : Bytes → Digest} {skip : List (Digest × Bool)} {ls : List Layer}
+    {st st2 : Store} {o : Outcome} (p : PanicSite) (h : verifyPhase cfg hash skip ls st = (o, st2)) :
+    o ≠ .panic p := by
+  unfold verifyPhase at h
+  split at h
+  · cases h; simp
+  · exact verifyLoop_no_panic p ls h
+
+theorem removeBlobs_sub (used : List DRef) (ks : List DRef) :
+    ∀ (b : Digest → Option Bytes) (x : Digest) (c : Bytes), removeBlobs used ks b x = some c → b x = some c := by
+  induction ks with
+  | nil => intro b x c h; exact h
+  | cons k ks ih =>
+    intro b x c h
+    cases k with
+    | empty => exact ih b x c (by simpa [removeBlobs] using h)
+    | bad => exact ih b x c (by simpa [removeBlobs] using h)
+    | ok d =>
+      simp only [removeBlobs] at h
+      split at h
+      · exact ih b x c h
+      · have := ih _ x c h
+        by_cases e : x = d
+        · subst e; simp [upd_same] at this
+        · rwa [upd_other _ _ _ _ e] at this
+
+theorem prunedBlobs_sub (cfg : Cfg) (name : Name) (m : Manifest) (st st2 : Store) (x : Digest) (c : Bytes)
+    (h : prunedBlobs cfg name m st st2 x = some c) : st2.blobs x = some c := by
+  unfold prunedBlobs at h
+  split at h
+  · exact h
+  · exact removeBlobs_sub _ _ _ x c h
 
 end OllamaVerif.Pull
